@@ -637,3 +637,97 @@ Section SliceBranch.
     split; [reflexivity|]. cbn [a_nd take_shape]. rewrite take_node. reflexivity.
   Qed.
 End SliceBranch.
+
+(* ------------------------------------------------------------------ 6. assembly *)
+
+Section Core.
+  Context (ps : list cpart) (fs : list nd) (T : list Z) (dt : Z).
+  Context (HP : Forall2 (part_ok T dt) ps fs).
+  Context (Hne : ps <> []).
+  Context (Hlen : Forall (fun p => 0 <= part_len p) ps).
+
+  Let lens := map part_len ps.
+  Let CH := List.concat (map (fun f => children (nd_body f)) fs).
+  Let total := zsum lens.
+
+  (* head kinds whose branch is proved below *)
+  Definition head_proved (head : aidx) : Prop :=
+    match head with AInt _ | ASlice _ _ _ => True | _ => False end.
+
+  Lemma head_all tail S head out0 : List.length tail = List.length T ->
+    mapM (fun p => resolve (fst p) (snd p)) (combine T tail) = Ok S ->
+    head_proved head ->
+    c_head ps dt total S head tail = Ok out0 ->
+    exists hs, resolve total head = Ok hs /\ head_result fs dt S out0 hs.
+  Proof.
+    intros HT HS Hh HC. destruct head as [z|a b cc|m|l]; try contradiction.
+    - exact (head_scalar ps fs T dt tail S HP HT HS Hne Hlen z out0 HC).
+    - cbn [c_head] in HC. fold lens in HC. fold total in HC.
+      destruct (slice_indices total a b cc) as [[[start stop] st]|] eqn:ESI; [|discriminate].
+      destruct (st <? 0) eqn:Est; [discriminate|].
+      assert (Htot : 0 <= total).
+      { unfold total. pose proof (lens_nonneg ps Hlen) as LN. fold lens in LN. clear -LN.
+        induction LN; cbn; [lia|]. fold (zsum l). lia. }
+      destruct (slice_indices_bounds _ _ _ _ _ _ _ Htot ESI) as [H0 [Bp _]].
+      specialize (Bp ltac:(lia)).
+      destruct (mapM _ _) as [chunks|] eqn:EM in HC; [|discriminate]. cbn [bind] in HC.
+      exists (py_range start stop st, false). split.
+      + cbn [resolve]. unfold slice_positions. now rewrite ESI.
+      + assert (Hst : 0 < st) by lia.
+        exact (head_slice_chunks ps fs T dt tail S HP HT HS Hne Hlen start stop st Hst (proj1 Bp) (proj2 Bp) chunks out0 EM HC).
+  Qed.
+
+  Lemma concat_core ts ixs out :
+    c_initial_dtype ps = Ok dt ->
+    head_proved (hd full (pad_to (Datatypes.S (List.length T)) ixs)) ->
+    c_getitem (mk_concat ps ts) ixs = Ok out ->
+    (r <- oindex (mk_nd (total :: T) (Node CH)) ixs ;; apply_transforms ts (mk_arr dt r)) = Ok out.
+  Proof.
+    intros Hdt Hh HG. unfold c_getitem in HG. cbn [c_parts c_ts] in HG.
+    assert (HI : c_initial_shape ps = Ok (total :: T) \/ c_initial_shape ps = Err).
+    { unfold c_initial_shape. destruct ps as [|p r] eqn:EP; [now right|].
+      destruct (forallb _ r); [left|now right]. inversion HP as [|? f ? fs' H0 _]; subst.
+      destruct H0 as [_ [Ht _]]. rewrite Ht. reflexivity. }
+    destruct HI as [HI|HI]; rewrite HI in HG; [|discriminate]. cbn [bind] in HG.
+    rewrite Hdt in HG. cbn [bind List.length] in HG.
+    destruct (pad_to (Datatypes.S (List.length T)) ixs) as [|head tail] eqn:EPad; [discriminate|].
+    assert (HT : List.length tail = List.length T).
+    { pose proof (pad_to_length (Datatypes.S (List.length T)) ixs) as PL. rewrite EPad in PL. cbn in PL. lia. }
+    destruct (mapM _ (combine T tail)) as [S|] eqn:ES in HG; [|discriminate]. cbn [bind] in HG.
+    destruct (c_head ps dt total S head tail) as [out0|] eqn:EH; [|discriminate]. cbn [bind] in HG.
+    cbn [hd] in Hh.
+    destruct (head_all tail S head out0 HT ES Hh EH) as [hs [ER [HD HN]]].
+    unfold oindex, resolve_all. cbn [nd_shape nd_body List.length]. rewrite EPad.
+    cbn [combine mapM fst snd]. rewrite ER. cbn [bind]. rewrite ES. cbn [bind].
+    destruct out0 as [d0 n0]. cbn [a_dtype a_nd] in HD, HN. subst d0 n0. exact HG.
+  Qed.
+End Core.
+
+(* a real part (LazyIndexer without transforms over any source) satisfies part_ok *)
+Lemma part_ok_of_raw r li a1 :
+  Forall (fun d => 0 <= d) (r_shape r) -> r_shape r <> [] ->
+  mk_lazy (r_shape r) (r_keep r) [] (r_dt r) = Ok li ->
+  oindex_keep (mk_nd (r_shape r) (r_ds r)) (r_keep r) = Ok a1 ->
+  part_ok (tl (nd_shape a1)) (r_dt r) (mk_cpart li (r_ds r)) a1 /\ 0 <= part_len (mk_cpart li (r_ds r)).
+Proof.
+  intros Hs Hne HM H1.
+  destruct (mk_lazy_fields _ _ _ _ _ _ _ Hs HM H1) as [F1 [F2 [F3 [F4 [F5 F6]]]]].
+  unfold part_ok, part_len, part_tail. cbn [cp_li cp_ds]. rewrite F1.
+  assert (Hnd : exists h T, nd_shape a1 = h :: T).
+  { destruct (nd_shape a1) as [|h T] eqn:E; [|eauto]. destruct (r_shape r); [congruence|discriminate]. }
+  destruct Hnd as [h [T Hsh]]. rewrite Hsh. cbn [hd tl]. rewrite Hsh in F5.
+  assert (Hh : 0 <= h) by (inversion F5; assumption). split; [|exact Hh]. split; [reflexivity|]. split; [reflexivity|]. split.
+  - (* body is a Node with h children *)
+    unfold oindex_keep, keep_sels in H1. cbn [nd_shape nd_body] in H1.
+    destruct (mapM _ _) as [sels1|] eqn:EK in H1; [|discriminate]. cbn [bind] in H1. injection H1 as <-.
+    cbn [nd_shape nd_body] in *.
+    destruct (r_shape r) as [|n sh]; [congruence|]. cbn [List.length] in EK.
+    destruct (r_keep r) as [|i0 ir]; cbn [pad_to combine mapM fst snd] in EK;
+      (destruct (resolve_keep n _) as [p1|]; [|discriminate]); cbn [bind] in EK;
+      (destruct (mapM _ (combine sh _)) as [rest|]; [|discriminate]); cbn [bind] in EK; injection EK as <-;
+      cbn [take_shape take] in *; injection Hsh as <- _; (eexists; split; [reflexivity|]); now rewrite zlen_map.
+  - intros ixs out HG. unfold part_get in HG. cbn [cp_li cp_ds] in HG.
+    pose proof (getitem_correct _ _ _ _ _ _ _ _ _ Hs HM H1 HG) as SP.
+    unfold spec_getitem in SP. rewrite H1 in SP. cbn [bind] in SP.
+    destruct (oindex a1 ixs) as [a2|]; [|discriminate]. cbn in SP. injection SP as <-. split; reflexivity.
+Qed.
